@@ -13,7 +13,7 @@ import (
 func init() {
 	Drivers["C16"] = driveC16
 	Levels["C16"] = "exploration"
-	Rules["C16"] = "one run = one type (from a corpus of 44 declared types: nesting, embedding, shadowing, tags '-', '-,', omitempty, omitzero, recursive and mutually recursive types, unsupported kinds at depth, stdlib marshaler types; or a reflect.StructOf type drawn from the chooser) x one ForOptions (TypeSchemas overriding named, embedded and stdlib types; IgnoreInvalidTypes on/off) x a history of 3-8 steps: ForType again, ForType of other types, client assignments to any field of any Schema object of an earlier result (and insertions into its schema maps), Resolve of a result; executed under map-order schedules and, as separate process batches, under both JSONSCHEMAGODEBUG settings. Oracles: every call with the same arguments marshals byte-identically to the first, whatever happened in between; no *Schema is shared between two results or with a TypeSchemas entry; Resolve accepts every result; recursive types give an error within the step budget; unsupported kinds give an error, or are dropped with IgnoreInvalidTypes. Non-trivial = a history of >=3 calls on a type that occurs >=2 times in itself or in TypeSchemas, with a mutation between calls. Distinct = hash(type, options, history) x order-vector hash."
+	Rules["C16"] = "one run = one type (from a corpus of 44 declared types: nesting, embedding, shadowing, tags '-', '-,', omitempty, omitzero, recursive and mutually recursive types, unsupported kinds at depth, stdlib marshaler types; or a reflect.StructOf type drawn from the chooser) x one ForOptions (TypeSchemas overriding named, embedded and stdlib types; IgnoreInvalidTypes on/off) x a history of 3-8 steps: ForType again, ForType of other types, client assignments to any field of any Schema object of an earlier result (and insertions into its schema maps), Resolve of a result, reconfiguration (the client replaces a TypeSchemas entry in place or continues with a copy of the options holding another map); TypeSchemas keys may be pointer types, entries may be type-less or already nullable; executed under map-order schedules and, as separate process batches, under both JSONSCHEMAGODEBUG settings. Oracles: every call with the same arguments marshals byte-identically to the first, whatever happened in between; no *Schema is shared between two results or with a TypeSchemas entry; Resolve accepts every result; recursive types give an error within the step budget; unsupported kinds give an error, or are dropped with IgnoreInvalidTypes. Non-trivial = a history of >=3 calls on a type that occurs >=2 times in itself or in TypeSchemas, with a mutation between calls. Distinct = hash(type, options, history) x order-vector hash."
 	Assumptions["C16"] = append([]string{
 		"decided: determinism and isolation over call/mutation histories, configurations and schedules; NOT decided: that names, order and required agree with encoding/json for every tag string, and the nullability rules (pure functions of the type)",
 		"client mutations are field assignments and insertions into schema-valued maps only: non-schema slices and maps of a TypeSchemas entry are documented to be shared with its clones",
